@@ -10,14 +10,21 @@ package main
 //        goroutine, index), result = "re:" arg "#" exec-count, with Posts and cancellations mixed in
 //  (iii) crossing replies: the implementation holds call A while call B (other object) is answered;
 //        the harness relay holds reply A while reply B overtakes it
+//  (vii) mixed sizes: the runs of (ii) with argument and result payloads from a few bytes to several
+//        hundred KiB in the same run, over a byte relay (the real readers see the very bytes the real
+//        writers produced; a tap gives the trace) and over net.Pipe, a unix socket and a TCP socket
 
 import (
 	"bytes"
+	"crypto/sha256"
 	"encoding/binary"
 	"errors"
 	"fmt"
 	"io"
 	"log"
+	gonet "net"
+	"os"
+	"path/filepath"
 	"strings"
 	"sync"
 	"time"
@@ -73,6 +80,15 @@ func (c *c04Counters) hold(key string) (held <-chan struct{}, release func()) {
 	return h, func() { once.Do(func() { close(r) }) }
 }
 
+// c04Key: the execution counter of a method for an argument; long arguments (the mixed-size runs)
+// are represented by their first bytes, length and digest
+func c04Key(svc int, method, a string) string {
+	if len(a) <= 1024 {
+		return fmt.Sprintf("s%d:%s:%s", svc, method, a)
+	}
+	return fmt.Sprintf("s%d:%s:%s...%d:%x", svc, method, a[:48], len(a), sha256.Sum256([]byte(a)))
+}
+
 type c04Pong struct {
 	svc int
 	cnt *c04Counters
@@ -81,14 +97,14 @@ type c04Pong struct {
 func (p *c04Pong) Activate(a bus.Activation, h pong.PingPongSignalHelper) error { return nil }
 func (p *c04Pong) OnTerminate()                                                 {}
 func (p *c04Pong) Hello(a string) (string, error) {
-	n := p.cnt.run(fmt.Sprintf("s%d:hello:%s", p.svc, a))
+	n := p.cnt.run(c04Key(p.svc, "hello", a))
 	if strings.HasPrefix(a, "ERR") {
 		return "", errors.New("refused by the method")
 	}
 	return fmt.Sprintf("re:%s#%d", a, n), nil
 }
 func (p *c04Pong) Ping(a string) error {
-	p.cnt.run(fmt.Sprintf("s%d:ping:%s", p.svc, a))
+	p.cnt.run(c04Key(p.svc, "ping", a))
 	return nil
 }
 
@@ -402,6 +418,13 @@ type c04Link struct {
 	heldSig chan struct{}
 	ep      net.EndPoint
 	client  bus.Client
+	// kind: "frames" (frame relay, can hold an answer back), "bytes" (byte relay with a tap),
+	// "pipe" / "unix" / "tcp" (a connection of the Go runtime or the kernel; of the frames coming
+	// back only the headers are seen, through a filter that matches nothing)
+	kind       string
+	tapC, tapS []byte
+	tapBroken  bool
+	closers    []func()
 }
 
 func c04Bytes(m *net.Message) []byte {
@@ -483,11 +506,247 @@ func c04TraceTerm(l *c04Link) string {
 			if x.ty == net.Error {
 				p = nil
 			}
-			it = append(it, fmt.Sprintf("(%s, %s)", c04HdrList(x.ty, x.svc, x.obj, x.act, x.id), hx.Hex(p)))
+			it = append(it, fmt.Sprintf("(%s, %s)", c04HdrList(x.ty, x.svc, x.obj, x.act, x.id), c04Z(p)))
 		}
 		return hx.List(it)
 	}
 	return fmt.Sprintf("{| tc_c2s := %s; tc_s2c := %s |}", f(l.c2s), f(l.s2c))
+}
+
+// c04Z: a payload as the run-length compressed term of C04Run.zpay: segments (hex text, byte,
+// count) = the bytes of the hex text followed by count copies of byte.
+func c04Z(p []byte) string {
+	const minRun = 48
+	var segs []string
+	lit := 0
+	for i := 0; i < len(p); {
+		j := i
+		for j < len(p) && p[j] == p[i] {
+			j++
+		}
+		if j-i >= minRun {
+			segs = append(segs, fmt.Sprintf("(%s, %s, %s)", hx.Hex(p[lit:i]), hx.N(uint64(p[i])), hx.N(uint64(j-i))))
+			lit = j
+		}
+		i = j
+	}
+	if lit < len(p) || len(segs) == 0 {
+		segs = append(segs, fmt.Sprintf("(%s, %s, %s)", hx.Hex(p[lit:]), hx.N(0), hx.N(0)))
+	}
+	return hx.List(segs)
+}
+
+// c04Abbrev: a long argument in a description: runs of one character are written <'z' x 300000>
+func c04Abbrev(a string) string {
+	if len(a) < 64 {
+		return a
+	}
+	var b strings.Builder
+	for i := 0; i < len(a); {
+		j := i
+		for j < len(a) && a[j] == a[i] {
+			j++
+		}
+		if j-i >= 32 {
+			fmt.Fprintf(&b, "<%q x %d>", a[i], j-i)
+		} else {
+			b.WriteString(a[i:j])
+		}
+		i = j
+	}
+	if b.Len() > 300 {
+		return fmt.Sprintf("%s...(%d bytes)", b.String()[:300], len(a))
+	}
+	return b.String()
+}
+
+// tap: frames parsed from a copy of the bytes one side wrote (l.mu held)
+func (l *c04Link) tap(buf *[]byte, b []byte, dst *[]c04Frame) {
+	if l.tapBroken {
+		return
+	}
+	*buf = append(*buf, b...)
+	for len(*buf) >= net.HeaderSize {
+		size := int(binary.LittleEndian.Uint32((*buf)[8:12]))
+		if binary.BigEndian.Uint32((*buf)[0:4]) != net.Magic || uint32(size) > net.MaxPayloadSize {
+			l.tapBroken = true // not a frame boundary: the byte stream lost its framing
+			return
+		}
+		if len(*buf) < net.HeaderSize+size {
+			return
+		}
+		m := new(net.Message)
+		if err := m.Read(bytes.NewReader((*buf)[:net.HeaderSize+size])); err != nil {
+			l.tapBroken = true
+			return
+		}
+		*dst = append(*dst, c04Frame{m.Header.Type, m.Header.Service, m.Header.Object, m.Header.Action, m.Header.ID, m.Payload})
+		*buf = append([]byte(nil), (*buf)[net.HeaderSize+size:]...)
+	}
+}
+
+// newByteLink: client and server joined by a byte relay: every Write of either side is handed, as
+// it is and in the order the writes happened, to the reader of the other side, so the real
+// readers parse what the real writers produced (a frame sent in several writes stays in several
+// pieces, with whatever another goroutine wrote in between).  The trace is parsed from a copy.
+func (h *c04Harness) newByteLink() (*c04Link, error) {
+	h.nconn++
+	l := &c04Link{name: fmt.Sprintf("c04bytes%d", h.nconn), kind: "bytes", heldSig: make(chan struct{}, 1)}
+	l.cs, l.ss = newAhStream(l.name+"-client"), newAhStream(l.name+"-server")
+	l.cs.onBytes = func(b []byte) {
+		l.mu.Lock()
+		l.tap(&l.tapC, b, &l.c2s)
+		l.ss.Inject(b)
+		l.mu.Unlock()
+	}
+	l.ss.onBytes = func(b []byte) {
+		l.mu.Lock()
+		l.tap(&l.tapS, b, &l.s2c)
+		l.cs.Inject(b)
+		l.mu.Unlock()
+	}
+	l.cs.onClose = func() { l.ss.PeerClose() }
+	l.ss.onClose = func() { l.cs.PeerClose() }
+	if err := h.lis.Offer(l.ss, c04Deadline); err != nil {
+		return nil, err
+	}
+	l.ep = net.NewEndPoint(l.cs)
+	if err := bus.AuthenticateUser(l.ep, "", ""); err != nil {
+		return nil, fmt.Errorf("authenticate over the byte relay: %v", err)
+	}
+	l.client = bus.NewClient(bus.NewChannel(l.ep, bus.DefaultCap()))
+	l.mu.Lock()
+	l.c2s, l.s2c = nil, nil
+	l.mu.Unlock()
+	return l, nil
+}
+
+// c04Paced: a stream whose writer pauses after every Write (any other goroutine may run between
+// two Writes of one goroutine; on a socket the gap is otherwise a few hundred nanoseconds wide)
+type c04Paced struct{ net.Stream }
+
+func (y c04Paced) Write(p []byte) (int, error) {
+	n, err := y.Stream.Write(p)
+	time.Sleep(30 * time.Microsecond)
+	return n, err
+}
+
+// newConnLink: client and server joined by net.Pipe of the Go runtime ("pipe"), a unix socket
+// ("unix") or a TCP socket on the loopback interface ("tcp"); the server side is handed to the
+// server through the harness listener.  No relay: of the frames coming back the harness sees the
+// headers only (a filter on the client endpoint that records and matches nothing).
+func (h *c04Harness) newConnLink(kind, dir string) (*c04Link, error) {
+	h.nconn++
+	l := &c04Link{name: fmt.Sprintf("c04%s%d", kind, h.nconn), kind: kind, heldSig: make(chan struct{}, 1)}
+	var cconn, sconn gonet.Conn
+	switch kind {
+	case "pipe":
+		cconn, sconn = gonet.Pipe()
+	case "unix", "tcp":
+		network, addr := "tcp", "127.0.0.1:0"
+		if kind == "unix" {
+			network, addr = "unix", sockPath(dir, l.name+".sock")
+		}
+		lis, err := gonet.Listen(network, addr)
+		if err != nil {
+			return nil, err
+		}
+		defer lis.Close()
+		type acc struct {
+			c   gonet.Conn
+			err error
+		}
+		ch := make(chan acc, 1)
+		go func() { c, e := lis.Accept(); ch <- acc{c, e} }()
+		c, err := gonet.DialTimeout(network, lis.Addr().String(), c04Deadline)
+		if err != nil {
+			return nil, err
+		}
+		select {
+		case a := <-ch:
+			if a.err != nil {
+				c.Close()
+				return nil, a.err
+			}
+			cconn, sconn = c, a.c
+		case <-time.After(c04Deadline):
+			c.Close()
+			return nil, errors.New("accept timed out")
+		}
+		if kind == "unix" {
+			p := addr
+			l.closers = append(l.closers, func() { os.Remove(p); os.Remove(filepath.Dir(p)) })
+		}
+	default:
+		return nil, errors.New("unknown transport " + kind)
+	}
+	if err := h.lis.Offer(c04Paced{net.ConnStream(sconn)}, c04Deadline); err != nil {
+		cconn.Close()
+		sconn.Close()
+		return nil, err
+	}
+	sink := make(chan *net.Message, 1)
+	l.ep = net.EndPointFinalizer(c04Paced{net.ConnStream(cconn)}, func(e net.EndPoint) {
+		e.MakeHandler(func(hdr *net.Header) (bool, bool) {
+			l.mu.Lock()
+			l.s2c = append(l.s2c, c04Frame{hdr.Type, hdr.Service, hdr.Object, hdr.Action, hdr.ID, nil})
+			l.mu.Unlock()
+			return false, true
+		}, sink, nil)
+	})
+	if err := bus.AuthenticateUser(l.ep, "", ""); err != nil {
+		l.ep.Close()
+		return nil, fmt.Errorf("authenticate over %s: %v", kind, err)
+	}
+	l.client = bus.NewClient(bus.NewChannel(l.ep, bus.DefaultCap()))
+	l.mu.Lock()
+	l.s2c = nil
+	l.mu.Unlock()
+	return l, nil
+}
+
+// drain: everything this connection's client wrote has been handled by the connection goroutine
+// of the server, and everything the server wrote so far has been dispatched by the client
+func (l *c04Link) drain() {
+	if l.cs != nil {
+		l.cs.WaitIdle(c04Deadline)
+		l.ss.WaitIdle(c04Deadline)
+		return
+	}
+	// no relay to ask: a call to each probe object travels behind everything written before
+	for _, svc := range []uint32{1, 3} {
+		done := make(chan struct{})
+		go func(svc uint32) { l.client.Call(nil, svc, 1, 101, c04Str("sync")); close(done) }(svc)
+		select {
+		case <-done:
+		case <-time.After(c04Deadline):
+		}
+	}
+}
+
+func (l *c04Link) close() {
+	l.ep.Close()
+	for _, f := range l.closers {
+		f()
+	}
+}
+
+// c04PadSize: how many bytes an argument is padded with in the mixed-size runs: a few bytes,
+// log-uniform up to 64 KiB, a few bytes around a power of two between 4 KiB and 256 KiB (where a
+// size-dependent path would switch), or large (64 KiB to several hundred KiB)
+func c04PadSize(r *hx.Rng) int {
+	switch x := r.Intn(100); {
+	case x < 30:
+		return r.Intn(40)
+	case x < 50:
+		return 1 << uint(r.Intn(17)) + r.Intn(64)
+	case x < 62:
+		return (1 << uint(12+r.Intn(7))) - 60 + r.Intn(80)
+	case x < 95:
+		return 64*1024 + r.Intn(192*1024)
+	default:
+		return 256*1024 + r.Intn(384*1024)
+	}
 }
 
 type c04CallResult struct {
@@ -498,10 +757,23 @@ type c04CallResult struct {
 	err     error
 	cancel  bool
 	returns int
+	li      int    // index of the connection
+	raw     []byte // the returned payload when it is not an encoded string
+}
+
+func c04Result(li int, arg string, svc uint32, out []byte, err error, cancel bool) c04CallResult {
+	s, ok := c04DecodeStr(out)
+	r := c04CallResult{arg: arg, svc: svc, act: 100, out: s, err: err, cancel: cancel, returns: 1, li: li}
+	if err == nil && !ok {
+		r.raw = append([]byte{}, out...)
+	}
+	return r
 }
 
 // stress: goroutines x calls over the links; returns oracle failures
-func (h *c04Harness) stress(res *hx.Result, rng *hx.Rng, links []*c04Link, ngor, ncalls int, tag string) {
+// pad (nil: none): how many bytes the argument of each call and Post is padded with
+// Returns false when some call did not return within the deadline.
+func (h *c04Harness) stress(res *hx.Result, rng *hx.Rng, links []*c04Link, ngor, ncalls int, tag string, pad func(*hx.Rng) int) (allReturned bool) {
 	var wg sync.WaitGroup
 	var mu sync.Mutex
 	var results []c04CallResult
@@ -515,34 +787,34 @@ func (h *c04Harness) stress(res *hx.Result, rng *hx.Rng, links []*c04Link, ngor,
 				r := hx.NewRng(seed + uint64(li*1000+g))
 				for i := 0; i < ncalls; i++ {
 					arg := fmt.Sprintf("%s-c%dg%di%d", tag, li, g, i)
+					if pad != nil {
+						arg += "~" + strings.Repeat(string(rune('a'+(g*5+i)%26)), pad(r))
+					}
 					svc := uint32(r.Pick(1, 3))
 					switch x := r.Intn(20); {
 					case x < 2: // a Post, written by this goroutine on the shared endpoint
 						id := uint32(0x40000000 + li*1000000 + g*10000 + i*2)
 						mu.Lock()
-						posted[fmt.Sprintf("s%d:ping:%s", svc, arg)] = id
+						posted[c04Key(int(svc), "ping", arg)] = id
 						mu.Unlock()
 						l.ep.Send(net.NewMessage(net.NewHeader(net.Post, svc, 1, 101, id), c04Str(arg)))
 					case x < 4: // a call that is cancelled at some point
 						cancel := make(chan struct{})
 						go func(d time.Duration) { time.Sleep(d); close(cancel) }(time.Duration(r.Intn(300)) * time.Microsecond)
 						out, err := l.client.Call(cancel, svc, 1, 100, c04Str(arg))
-						s, _ := c04DecodeStr(out)
 						mu.Lock()
-						results = append(results, c04CallResult{arg: arg, svc: svc, act: 100, out: s, err: err, cancel: true, returns: 1})
+						results = append(results, c04Result(li, arg, svc, out, err, true))
 						mu.Unlock()
 					case x < 5: // the method returns an error
 						arg = "ERR" + arg
 						out, err := l.client.Call(nil, svc, 1, 100, c04Str(arg))
-						s, _ := c04DecodeStr(out)
 						mu.Lock()
-						results = append(results, c04CallResult{arg: arg, svc: svc, act: 100, out: s, err: err, returns: 1})
+						results = append(results, c04Result(li, arg, svc, out, err, false))
 						mu.Unlock()
 					default:
 						out, err := l.client.Call(nil, svc, 1, 100, c04Str(arg))
-						s, _ := c04DecodeStr(out)
 						mu.Lock()
-						results = append(results, c04CallResult{arg: arg, svc: svc, act: 100, out: s, err: err, returns: 1})
+						results = append(results, c04Result(li, arg, svc, out, err, false))
 						mu.Unlock()
 					}
 				}
@@ -555,25 +827,44 @@ func (h *c04Harness) stress(res *hx.Result, rng *hx.Rng, links []*c04Link, ngor,
 	case <-done:
 	case <-time.After(30 * time.Second):
 		res.Fail("call-without-outcome", fmt.Sprintf("stress %s: %d goroutines x %d calls over %d connection(s): some call did not return within 30 s", tag, ngor, ncalls, len(links)))
-		return
+		return false
 	}
 	// let cancelled calls' frames drain, then flush the mailboxes
 	for _, l := range links {
-		l.cs.WaitIdle(c04Deadline)
-		l.ss.WaitIdle(c04Deadline)
+		l.drain()
 	}
 	h.flushMailboxes()
 	time.Sleep(2 * time.Millisecond)
 	h.flushMailboxes()
+	failedFirst, failedMore, failedOrder := map[int]string{}, map[int]int{}, []int{}
+	defer func() {
+		for _, li := range failedOrder {
+			d := failedFirst[li]
+			if n := failedMore[li]; n > 0 {
+				d += fmt.Sprintf(" (and %d call(s) that returned later on the same connection ended with an error too)", n)
+			}
+			res.Fail("call-failed-unexpectedly", d)
+		}
+	}()
+	over := ""
+	if pad != nil {
+		over = ", " + links[0].kind + " transport, payload sizes mixed"
+	}
 	for _, r := range results {
-		key := fmt.Sprintf("s%d:hello:%s", r.svc, r.arg)
+		key := c04Key(int(r.svc), "hello", r.arg)
 		n := h.cnt.get(key)
-		desc := fmt.Sprintf("stress %s (%d goroutines x %d calls, %d connection(s)): call Hello(%q) to service %d", tag, ngor, ncalls, len(links), r.arg, r.svc)
+		desc := fmt.Sprintf("stress %s (%d goroutines x %d calls, %d connection(s)%s): call Hello(%q) to service %d", tag, ngor, ncalls, len(links), over, c04Abbrev(r.arg), r.svc)
 		switch {
 		case r.err == nil:
 			want := fmt.Sprintf("re:%s#1", r.arg)
-			if r.out != want {
-				res.Fail("wrong-or-foreign-result", fmt.Sprintf("%s returned %q, its own result is %q", desc, r.out, want))
+			if r.raw != nil {
+				head := r.raw
+				if len(head) > 48 {
+					head = head[:48]
+				}
+				res.Fail("wrong-or-foreign-result", fmt.Sprintf("%s returned a payload of %d bytes that is not an encoded string (it starts with %x), its own result is %q", desc, len(r.raw), head, c04Abbrev(want)))
+			} else if r.out != want {
+				res.Fail("wrong-or-foreign-result", fmt.Sprintf("%s returned %s, its own result is %q", desc, c04Differ(r.out, want), c04Abbrev(want)))
 			}
 			if n != 1 {
 				res.Fail("successful-call-exec-count", fmt.Sprintf("%s succeeded but its method body ran %d times", desc, n))
@@ -592,14 +883,25 @@ func (h *c04Harness) stress(res *hx.Result, rng *hx.Rng, links []*c04Link, ngor,
 					res.Fail("dropped-call-ran", fmt.Sprintf("%s was refused with %q but its method body ran %d time(s)", desc, r.err, n))
 				}
 			} else if !r.cancel && !strings.HasPrefix(r.arg, "ERR") {
-				res.Fail("call-failed-unexpectedly", fmt.Sprintf("%s ended with %v", desc, r.err))
+				// results are in the order the calls returned: the first such call of a connection
+				// is reported, the later ones of that connection (usually its consequences: the
+				// connection is gone) are counted
+				if _, seen := failedFirst[r.li]; !seen {
+					failedFirst[r.li] = fmt.Sprintf("%s ended with %v", desc, r.err)
+					failedOrder = append(failedOrder, r.li)
+				} else {
+					failedMore[r.li]++
+				}
 			}
 		}
 		res.Count(desc, len(links)*ngor >= 2)
+		if pad != nil {
+			res.Dist(c04SizeClass(len(r.arg)))
+		}
 	}
 	for key, id := range posted {
 		if n := h.cnt.get(key); n > 1 {
-			res.Fail("post-ran-more-than-once", fmt.Sprintf("stress %s: Post %s (id %d) ran %d times", tag, key, id, n))
+			res.Fail("post-ran-more-than-once", fmt.Sprintf("stress %s: Post %s (id %d) ran %d times", tag, c04Abbrev(key), id, n))
 		}
 	}
 	for _, l := range links {
@@ -613,7 +915,108 @@ func (h *c04Harness) stress(res *hx.Result, rng *hx.Rng, links []*c04Link, ngor,
 		}
 		l.mu.Unlock()
 	}
+	if pad != nil {
+		res.Dist("mixed-sizes:" + links[0].kind)
+	}
 	res.Dist(fmt.Sprintf("stress:%dconn-%dgor", len(links), ngor))
+	return true
+}
+
+func c04SizeClass(n int) string {
+	switch {
+	case n < 64:
+		return "arg-size:<64B"
+	case n < 4096:
+		return "arg-size:64B-4KiB"
+	case n < 64*1024-64:
+		return "arg-size:4KiB-64KiB"
+	case n < 64*1024+64:
+		return "arg-size:64KiB+-64B"
+	case n < 256*1024:
+		return "arg-size:64KiB-256KiB"
+	default:
+		return "arg-size:>=256KiB"
+	}
+}
+
+// c04Differ: a returned value that is not the expected one, shortened around the first difference
+func c04Differ(got, want string) string {
+	if len(got) < 200 {
+		return fmt.Sprintf("%q", got)
+	}
+	i := 0
+	for i < len(got) && i < len(want) && got[i] == want[i] {
+		i++
+	}
+	j := i + 60
+	if j > len(got) {
+		j = len(got)
+	}
+	return fmt.Sprintf("a value of %d bytes (its own result has %d) that differs from it at offset %d: ...%q...", len(got), len(want), i, got[i:j])
+}
+
+// mixedSizes: the stress of (ii) - goroutines sharing one client (every third run: two
+// connections), calls to two objects (two mailbox goroutines answering on the same connection),
+// Posts, cancellations, method errors - with arguments, hence results, of mixed sizes.  Over the
+// byte relay the trace of each connection is compared in Coq as in (ii) (payloads run-length
+// compressed); over pipe/unix/tcp the per-call oracles only.
+func (h *c04Harness) mixedSizes(res *hx.Result, rng *hx.Rng, cases *hx.Cases, tier, outdir string) {
+	kinds := []string{"bytes", "pipe", "bytes", "unix", "bytes", "tcp", "bytes", "bytes"}
+	rounds := 1
+	if tier == "thorough" {
+		rounds = 12
+	}
+	hung := 0
+	for run := 0; run < rounds*len(kinds); run++ {
+		kind := kinds[run%len(kinds)]
+		nl := 1
+		if run%3 == 2 {
+			nl = 2
+		}
+		var links []*c04Link
+		for i := 0; i < nl; i++ {
+			var l *c04Link
+			var err error
+			if kind == "bytes" {
+				l, err = h.newByteLink()
+			} else {
+				l, err = h.newConnLink(kind, outdir)
+			}
+			if err != nil {
+				res.Fail("harness", fmt.Sprintf("mixed sizes: %s connection: %v", kind, err))
+				return
+			}
+			links = append(links, l)
+		}
+		ngor := 3 + rng.Intn(4)
+		ncalls := 12 + rng.Intn(12)
+		if !h.stress(res, rng, links, ngor, ncalls, fmt.Sprintf("mix%d", run), c04PadSize) {
+			// calls that never return have been reported; each further run would wait for its
+			// deadline again
+			if hung++; hung >= 2 {
+				h.note(fmt.Sprintf("mixed sizes: stopped after run %d, calls did not return in two runs", run))
+				for _, l := range links {
+					l.close()
+				}
+				return
+			}
+		}
+		for li, l := range links {
+			l.drain()
+			if kind == "bytes" {
+				l.mu.Lock()
+				broken := l.tapBroken
+				l.mu.Unlock()
+				if broken {
+					h.note(fmt.Sprintf("mixed sizes run %d connection %d: the bytes written on the connection stopped being a sequence of frames", run, li))
+				}
+				cases.Flush() // one shard per large trace: they are evaluated in parallel
+				cases.Add("ts", c04TraceTerm(l), fmt.Sprintf("mixed sizes run %d connection %d (byte relay): frames written by the client and by the server", run, li))
+				cases.Flush()
+			}
+			l.close()
+		}
+	}
 }
 
 // crossing replies by holding the implementation: call A (service 1) is inside its method while
@@ -1104,6 +1507,7 @@ func runC04(res *hx.Result, rng *hx.Rng, tier string, outdir string) {
 	if tier == "thorough" {
 		runs = 400
 	}
+	hungRuns := 0
 	for run := 0; run < runs; run++ {
 		nl := 1 + run%3
 		var links []*c04Link
@@ -1117,7 +1521,16 @@ func runC04(res *hx.Result, rng *hx.Rng, tier string, outdir string) {
 		}
 		ngor := 2 + rng.Intn(5)
 		ncalls := 10 + rng.Intn(20)
-		h.stress(res, rng, links, ngor, ncalls, fmt.Sprintf("run%d", run))
+		if !h.stress(res, rng, links, ngor, ncalls, fmt.Sprintf("run%d", run), nil) {
+			// reported; every further run would wait for its deadlines again
+			if hungRuns++; hungRuns >= 4 {
+				h.note(fmt.Sprintf("concurrent runs: stopped after run %d, calls did not return in four runs", run))
+				for _, l := range links {
+					l.ep.Close()
+				}
+				break
+			}
+		}
 		h.crossingByImpl(res, links[0], run)
 		h.crossingByRelay(res, links[0], run)
 		for li, l := range links {
@@ -1127,6 +1540,10 @@ func runC04(res *hx.Result, rng *hx.Rng, tier string, outdir string) {
 			l.ep.Close()
 		}
 	}
+
+	// (vii) the same concurrent callers with payload sizes from a few bytes to several hundred KiB
+	// mixed in one run, over every transport
+	h.mixedSizes(res, rng, cases, tier, outdir)
 	cases.Flush()
 	res.Notes = append(res.Notes, h.notes...)
 	res.Notes = append(res.Notes, "goroutine scheduling inside one process cannot be forced between two lock acquisitions: part (ii) is stress with per-call oracles and a trace check; the theorems cover all schedules of the model")
